@@ -2388,6 +2388,11 @@ func (x *Exec) binop(p *Path, in *ssa.BinOp) Val {
 	case token.SUB:
 		return scalar(t, "(- "+l.S+" "+r.S+")")
 	case token.MUL:
+		if x.fc != nil && x.fc.NoOverflow && srt == "Int" {
+			// machine integers: the mathematical product must be the machine product (declared per function: nooverflow)
+			prod := "(* " + l.S + " " + r.S + ")"
+			x.oblige(p, "safety", "product_fits_in_64_bits", "(and (<= (- 9223372036854775808) "+prod+") (<= "+prod+" 9223372036854775807))", nil, "nooverflow")
+		}
 		return scalar(t, "(* "+l.S+" "+r.S+")")
 	case token.QUO:
 		if srt == "Real" {
